@@ -115,9 +115,17 @@ class PythonType(GenericType):
             len(self.python_type)
             len(other.python_type)
         except Exception:
+            # at most one of the two is a tuple of classes (e.g. Number):
+            # a tuple accepts what any of its classes accepts, so it takes
+            # the place of issubclass()'s first argument class by class
+            def accepts_all_of(wider, narrower):
+                if not isinstance(narrower, tuple):
+                    narrower = (narrower,)
+                return all(issubclass(t, wider) for t in narrower)
+
             return (
-                issubclass(self.python_type, other.python_type)
-                and not issubclass(other.python_type, self.python_type)
+                accepts_all_of(other.python_type, self.python_type)
+                and not accepts_all_of(self.python_type, other.python_type)
             )
         else:
             return False
